@@ -1,0 +1,6 @@
+//go:build !verif
+// +build !verif
+
+package routing
+
+func verifRoutingPath(n int) {}
